@@ -374,11 +374,13 @@ func (db *DB) Close() error {
 
 // Sync 数据持久化
 func (db *DB) Sync() error {
+	db.mu.Lock()
+	defer db.mu.Unlock()
+
+	// activeFile 会被并发的写入操作替换, 需在锁内访问
 	if db.activeFile == nil {
 		return nil
 	}
-	db.mu.Lock()
-	defer db.mu.Unlock()
 
 	// 仅持久化当前活跃文件
 	return db.activeFile.Sync()
